@@ -62,6 +62,17 @@ type spec struct {
 	Oracles []string     // function-typed parameters that are effectful callbacks
 	Consts  []constSpec  // package-level constants / error values the function mentions
 	Prims   []string     // library functions kept abstract as leading parameters (sortFunc)
+	WrapInt bool         // int / int64 `+ - *` wrap at 64 bits (Go.wrap64) instead of assuming no overflow
+	Frag    *fragSpec    // translate a run of statements of the function as a function of its own
+	Name    string       // Lean name (default: the Go name, Recv_Func for methods)
+}
+
+// a fragment: the consecutive statements of one block from the one whose text starts with First to
+// the one whose text starts with Last; the variables it reads become parameters, Results are returned
+type fragSpec struct {
+	First, Last string
+	Params      []string // "name type" in Go syntax
+	Results     []string // names of parameters / variables returned, in order
 }
 
 var specs = []spec{
@@ -96,7 +107,14 @@ var specs = []spec{
 	{File: "utils/compare.go", Func: "AccessNestedProperty", Module: "Compare", Ext: true},
 	{File: "utils/compare.go", Func: "SortSearchResults", Module: "Compare", Ext: true, Structs: sortStructs,
 		Prims: []string{"sortFunc", "CompareAny=func(a, b any) int"}},
+	pagingSpec,
 }
+
+// the paging at the end of Shard.SearchPoints
+var pagingSpec = spec{File: "shard/shard.go", Func: "SearchPoints", Recv: "Shard", Module: "Paging", Ext: true, WrapInt: true, Name: "SearchPoints_paging",
+	Structs: []structSpec{{File: "models/search.go", Name: "SearchRequest", Only: []string{"Offset", "Limit"}}, {File: "models/search.go", Name: "SearchResult", Only: []string{"NodeId"}}},
+	Frag: &fragSpec{First: "if searchRequest.Limit == 0 {", Last: "finalResults = finalResults[start:end]",
+		Params: []string{"searchRequest models.SearchRequest", "finalResults []models.SearchResult"}, Results: []string{"finalResults"}}}
 
 // models.SearchResult as far as sorting looks at it, models.SortOption
 var sortStructs = []structSpec{{File: "models/point.go", Name: "PointAsMap"}, {File: "models/search.go", Name: "SearchResult", Only: []string{"DecodedData"}},
